@@ -4,12 +4,15 @@ package synctree
 
 import (
 	"context"
+	"errors"
 
 	"google.golang.org/protobuf/proto"
 
 	"github.com/anyproto/any-sync/commonspace/object/tree/objecttree"
 	"github.com/anyproto/any-sync/commonspace/object/tree/synctree/response"
 	"github.com/anyproto/any-sync/commonspace/object/tree/treechangeproto"
+	"github.com/anyproto/any-sync/commonspace/object/tree/treestorage"
+	"github.com/anyproto/any-sync/commonspace/spacestorage"
 	"github.com/anyproto/any-sync/commonspace/sync/objectsync/objectmessages"
 	"github.com/anyproto/any-sync/commonspace/syncstatus"
 	rt "github.com/anyproto/any-sync/internal/verifrt"
@@ -76,4 +79,32 @@ func VerifC11SyncMsg() {
 		rt.Reach("handled")
 	}
 	rt.Reach("survived")
+}
+
+// the storage side of a tree fetched from a peer: refuses everything, so that only the handling of the
+// peer's answer itself is in play
+type vC11Space struct{ spacestorage.SpaceStorage }
+
+func (vC11Space) CreateTreeStorage(ctx context.Context, payload treestorage.TreeStorageCreatePayload) (objecttree.Storage, error) {
+	return nil, errors.New("verif: no storage")
+}
+func (vC11Space) CreateStorageWithDeferredCreation(ctx context.Context, payload treestorage.TreeStorageCreatePayload) (objecttree.Storage, error) {
+	return nil, errors.New("verif: no storage")
+}
+
+// VerifC11Collect: the answer to a tree fetch, with or without the root it must carry, is refused with an error.
+func VerifC11Collect() {
+	c := newFullResponseCollector(BuildDeps{SpaceStorage: vC11Space{}})
+	resp := &response.Response{}
+	switch rt.Choose(3) {
+	case 0: // nothing
+	case 1: // heads and changes, no root
+		resp.Heads = []string{"zz"}
+		resp.Changes = []*treechangeproto.RawTreeChangeWithId{{Id: "zz", RawChange: []byte{1}}}
+	case 2: // a root that is not one
+		resp.Root = &treechangeproto.RawTreeChangeWithId{Id: "zz", RawChange: []byte{1}}
+	}
+	err := c.CollectResponse(context.Background(), "evil", "zz", resp)
+	rt.Assert(err != nil, "a-fetch-answer-that-is-not-a-tree-is-refused")
+	rt.Reach("refused")
 }
